@@ -9,6 +9,8 @@ request  `{"op":"script","P":{…},"legacy":false,"events":[["add"],["rec",j,b,o
 `P`      `{"max_steps":n,"kind":"idle"|"const"|"sha"|"median", "stop_step":…, "min_steps":…,
            "rf":…, "mesr":…, "min_competing":…, "min_fully_completed":…, "interval":…, "eps":"n/d"}`
 `obj`    `"n/d"` (a number) or `{"F":"tag"}` (a non-Number objective)
+         `{"op":"check","P":{…},"trace":[[job,budget,obj,stopped],…]}`  → `{"ok":true,"spec":bool,"bad":index|null}`
+         (the verified checker `checkStopTrace`, theorem `C16_checker`, on a trace of the real stoppers)
 reply    `{"ok":true,"trace":[{"r":true|false|null|"<error>","md":{…metadata of the acting job…}},…],
            "final":[{…metadata of job 0…},…]}`
 -/
@@ -68,7 +70,16 @@ def resJson : Except Err Bool → Json
   | .ok b => Json.bool b
   | .error e => Json.str (errStr e)
 
-def entry (r : Json) (s : Sys) (j : Nat) : Json := Json.mkObj [("r", r), ("md", mdOf s j)]
+/-- what `RunningJob.objective`, `stopper.step` and `stopper.observations` show for job `j` -/
+def viewOf (s : Sys) (j : Nat) : List (String × Json) :=
+  match s[j]? with
+  | some jr =>
+    [("obj", match jr.js.objective with | some o => objJson o | none => Json.null),
+     ("step", match jr.js.step with | some b => Json.num (JsonNumber.fromNat b) | none => Json.null),
+     ("nobs", Json.num (JsonNumber.fromNat jr.js.observations.2.length))]
+  | none => []
+
+def entry (r : Json) (s : Sys) (j : Nat) : Json := Json.mkObj ([("r", r), ("md", mdOf s j)] ++ viewOf s j)
 
 def runScript (legacy : Bool) (P : Params) : Sys → List Json → Except String (Sys × List Json)
   | s, [] => .ok (s, [])
@@ -117,6 +128,15 @@ def handle (j : Json) : Except String Json := do
   let legacy ← match j.getObjVal? "legacy" with
     | .ok v => jBool v
     | .error _ => .ok false
+  if op == "check" then
+    -- the verified checker (theorem C16_checker) on a trace of the REAL stoppers
+    let tr ← jList (fun e => do
+      let a ← e.getArr?
+      return ({ job := ← jNat (a.getD 0 Json.null), step := ← jNat (a.getD 1 Json.null),
+                obj := ← jObj (a.getD 2 Json.null), stop := ← jBool (a.getD 3 Json.null) } : TEv)) (← field j "trace")
+    let bad := firstBad P [] tr 0
+    return Json.mkObj [("ok", true), ("spec", checkStopTrace P tr),
+      ("bad", match bad with | some i => Json.num (JsonNumber.fromNat i) | none => Json.null)]
   let evs := (← (← field j "events").getArr?).toList
   let (s, tr) ← match op with
     | "script" => runScript legacy P [] evs
